@@ -1761,22 +1761,50 @@ VResult o_loop(const VCase &c) {
                                  c.d("anchor", 2)),
               CoordinateVector<>(c.d("side", 0), c.d("side", 1), c.d("side", 2)));
     IsotropicContinuousPhotonSource source(box);
+    // the real position -> subgrid map (no subgrids are allocated)
+    DensitySubGridCreator< DensitySubGrid > probe(
+        box,
+        CoordinateVector< int_fast32_t >((int)c.i("nc", 0), (int)c.i("nc", 1),
+                                         (int)c.i("nc", 2)),
+        CoordinateVector< int_fast32_t >((int)c.i("ns", 0), (int)c.i("ns", 1),
+                                         (int)c.i("ns", 2)),
+        CoordinateVector< bool >(false, false, false));
+    std::vector< std::unique_ptr< DensitySubGrid > > probe_grids(
+        probe.number_of_original_subgrids());
     RandomGenerator rg((int_fast32_t)c.i("seed") + 1000);
     for (int k = 0; k < 5000; ++k) {
       const auto pd = source.get_random_incoming_direction(rg);
-      for (int a = 0; a < 3; ++a) {
-        const double sub = c.d("side", a) / (double)c.i("ns", a);
-        const double idx = std::floor((pd.first[a] - c.d("anchor", a)) / sub);
-        if (!(idx >= 0. && idx < (double)c.i("ns", a))) {
-          r.label("external-source-packet-outside-the-box");
-          r.fail(fmt("IsotropicContinuousPhotonSource created a packet at "
-                     "%.17g %.17g %.17g: coordinate %d is outside the "
-                     "half-open box [%.17g, %.17g) (subgrid index %g of %d); "
-                     "the continuous source task would write outside its "
-                     "buffers", pd.first[0], pd.first[1], pd.first[2], a,
-                     c.d("anchor", a), c.d("anchor", a) + c.d("side", a), idx,
-                     (int)c.i("ns", a)));
-          return r;
+      if (probe.get_subgrid(pd.first).get_index() >=
+          probe.number_of_original_subgrids()) {
+        r.label("external-source-packet-outside-the-box");
+        r.fail(fmt("IsotropicContinuousPhotonSource created a packet at %.17g "
+                   "%.17g %.17g for which get_subgrid() returns index %zu of "
+                   "%zu subgrids; the continuous source task would write "
+                   "outside its buffers", pd.first[0], pd.first[1],
+                   pd.first[2], (size_t)probe.get_subgrid(pd.first).get_index(),
+                   (size_t)probe.number_of_original_subgrids()));
+        return r;
+      }
+      // ... and the position must lie in the block it is mapped to
+      {
+        const size_t idx = probe.get_subgrid(pd.first).get_index();
+        if (!probe_grids[idx])
+          probe_grids[idx].reset(probe.create_subgrid(idx));
+        double sbox[6];
+        probe_grids[idx]->get_grid_box(sbox);
+        for (int a = 0; a < 3; ++a) {
+          const double tol = 1.e-9 * sbox[3 + a];
+          if (!(pd.first[a] >= sbox[a] - tol &&
+                pd.first[a] <= sbox[a] + sbox[3 + a] + tol)) {
+            r.label("external-source-packet-outside-the-box");
+            r.fail(fmt("IsotropicContinuousPhotonSource created a packet at "
+                       "%.17g %.17g %.17g, get_subgrid() maps it to subgrid "
+                       "%zu whose extent along axis %d is [%.17g, %.17g]: the "
+                       "packet is handed to a subgrid that does not contain it",
+                       pd.first[0], pd.first[1], pd.first[2], idx, a, sbox[a],
+                       sbox[a] + sbox[3 + a]));
+            return r;
+          }
         }
       }
     }
